@@ -129,6 +129,7 @@ func runSibShape(c *core.Ctx) []core.Obligation {
 	}
 	obs = append(obs, runTwinSearch(c)...)
 	obs = append(obs, cumulativeLookups(c)...)
+	obs = append(obs, polygonAccessors(c))
 	return obs
 }
 
@@ -357,4 +358,67 @@ func cumulativeLookups(c *core.Ctx) []core.Obligation {
 		}
 	}
 	return obs
+}
+
+
+// polygonAccessors (after round-7 seed C06-r7m1, Polygon.ChainEdge delegating to Loop.ChainEdge): a polygon
+// enumerates the vertices of a hole in reverse (OrientedVertex) so that its interior is on the left; Loop's own
+// accessors (Vertex, Edge, ChainEdge) use the stored order. Polygon.Edge and Polygon.ChainEdge must read loop vertices
+// through the same accessor, otherwise ChainEdge(i, j) and Edge(Chain(i).Start + j) are different (reversed) edges for
+// every hole. The accessors reached from each (directly or through one Loop method) are compared.
+func polygonAccessors(c *core.Ctx) core.Obligation {
+	const construct = "Polygon:Edge-and-ChainEdge-same-vertex-accessor"
+	isAcc := func(f *ssa.Function) bool {
+		if f == nil || f.Signature.Recv() == nil || !core.IsNamed(f.Signature.Recv().Type(), "s2", "Loop") {
+			return false
+		}
+		sig := f.Signature
+		return sig.Params().Len() == 1 && sig.Results().Len() == 1 && core.IsNamed(sig.Results().At(0).Type(), "s2", "Point")
+	}
+	var collect func(fn *ssa.Function, depth int, out map[string]bool)
+	collect = func(fn *ssa.Function, depth int, out map[string]bool) {
+		if fn == nil || depth > 2 {
+			return
+		}
+		core.AllInstrs(fn, func(in ssa.Instruction) {
+			call, ok := in.(*ssa.Call)
+			if !ok {
+				return
+			}
+			f := core.StaticCallee(call)
+			if f == nil || !core.IsGeo(f) {
+				return
+			}
+			if isAcc(f) {
+				out[f.Name()] = true
+				return
+			}
+			if f.Signature.Recv() != nil && core.IsNamed(f.Signature.Recv().Type(), "s2", "Loop") {
+				collect(f, depth+1, out)
+			}
+		})
+	}
+	edge, chainEdge := c.Fn("s2", "Polygon", "Edge"), c.Fn("s2", "Polygon", "ChainEdge")
+	if edge == nil || chainEdge == nil {
+		return core.Ob("R-SIBSHAPE", construct, "-", "", core.Violated, "unresolved anchor")
+	}
+	a, b := map[string]bool{}, map[string]bool{}
+	collect(edge, 0, a)
+	collect(chainEdge, 0, b)
+	names := func(m map[string]bool) string {
+		var ks []string
+		for k := range m {
+			ks = append(ks, k)
+		}
+		sort.Strings(ks)
+		return strings.Join(ks, ",")
+	}
+	if len(a) == 0 || len(b) == 0 {
+		return core.Ob("R-SIBSHAPE", construct, c.Pos(chainEdge.Pos()), core.FuncName(chainEdge), core.Violated, "unresolved anchor: no loop vertex accessor reached from Polygon.Edge {"+names(a)+"} or Polygon.ChainEdge {"+names(b)+"}")
+	}
+	if names(a) != names(b) {
+		return core.Ob("R-SIBSHAPE", construct, c.Pos(chainEdge.Pos()), core.FuncName(chainEdge), core.Violated,
+			"Polygon.Edge reads loop vertices through {"+names(a)+"} but Polygon.ChainEdge through {"+names(b)+"}: for a hole (odd depth) the two run in opposite directions, so ChainEdge(i, j) is not Edge(Chain(i).Start + j) but a reversed edge from the other end of the loop")
+	}
+	return core.Ob("R-SIBSHAPE", construct, c.Pos(chainEdge.Pos()), core.FuncName(chainEdge), core.Discharged, "both read loop vertices through "+names(a))
 }
